@@ -51,12 +51,13 @@ conf() {
     C03) PKG=c03;;
     C05) PKG=c05;;
     C07) PKG=c07;;
+    C11) PKG=c11;;
     *) return 1;;
   esac
   QT="${QT}"; return 0
 }
 
-ALL_IDS="C01 C02 C03 C05 C07"
+ALL_IDS="C01 C02 C03 C05 C07 C11"
 
 build_one() { # id -> builds $BIN
   conf "$1" || { echo "check.sh: unknown property $1" >&2; return 2; }
